@@ -61,18 +61,43 @@ func vfStConc(sym []string, lab map[string]string) string {
 	return sb.String()
 }
 
-func vfStBuild(t testing.TB, tab []vfStEntry, lab map[string]string) *PreConfigRoute {
+// vfStJunk is a literal dest no looked-up host ever equals: listing it next to a real dest in one configuration entry
+// (several dests sharing a next hop, as in the shipped sip-proxy.yaml) must not change what the real dest does
+func vfStJunk(i int) string { return fmt.Sprintf("unused-%d.invalid", i) }
+
+// layout 0: one dest per entry; 1: a junk literal listed BEFORE the dest in the same entry; 2: listed AFTER it, and
+// neighbouring entries with the same next hop merged into one entry
+func vfStBuild(t testing.TB, tab []vfStEntry, lab map[string]string, layout int) *PreConfigRoute {
 	var y strings.Builder
 	y.WriteString("proxies:\n- name: svc\n")
 	if len(tab) > 0 {
 		y.WriteString("  route:\n")
 	}
-	for _, e := range tab {
+	hopOf := func(e vfStEntry) string {
 		hop := strings.Join(e.NHost, "")
 		if e.NPort != 0 {
 			hop = fmt.Sprintf("%s:%d", hop, e.NPort)
 		}
-		fmt.Fprintf(&y, "  - dests:\n    - %q\n    protocol: %s\n    nexthop: %q\n", vfStConc(e.Pat, lab), e.Proto, hop)
+		return e.Proto + " " + hop
+	}
+	for i := 0; i < len(tab); i++ {
+		e := tab[i]
+		dests := []string{vfStConc(e.Pat, lab)}
+		for layout == 2 && i+1 < len(tab) && hopOf(tab[i+1]) == hopOf(e) {
+			i++
+			dests = append(dests, vfStConc(tab[i].Pat, lab))
+		}
+		switch layout {
+		case 1:
+			dests = append([]string{vfStJunk(i)}, dests...)
+		case 2:
+			dests = append(dests, vfStJunk(i))
+		}
+		y.WriteString("  - dests:\n")
+		for _, d := range dests {
+			fmt.Fprintf(&y, "    - %q\n", d)
+		}
+		fmt.Fprintf(&y, "    protocol: %s\n    nexthop: %q\n", e.Proto, strings.SplitN(hopOf(e), " ", 2)[1])
 	}
 	cfg, err := loadConfigFromReader(strings.NewReader(y.String()))
 	if err != nil || len(cfg.Proxies) != 1 {
@@ -85,7 +110,7 @@ func vfStRun(t testing.TB, tr *vfTrace, id string, c vfStCase, lab map[string]st
 	seen := map[string]vfStRes{}
 	pm := vfCatch(func() {
 		for o := 0; o < 3; o++ {
-			pcr := vfStBuild(t, c.Tab, lab)
+			pcr := vfStBuild(t, c.Tab, lab, o)
 			h := vfStConc(c.Host, lab)
 			for i := 0; i < 50; i++ {
 				proto, host, port, err := pcr.FindRoute(h)
